@@ -19,6 +19,8 @@ type c11Gen struct {
 	stats c11Stats
 	// feature switches for classes that are recorded findings
 	allowOperatorCallArgs bool
+	allowEmptyIf          bool
+	allowNestedRefInDeferred bool
 }
 
 var c11Predefined = []string{"_GPE", "_PR_", "_SB_", "_SI_", "_TZ_"}
@@ -221,19 +223,19 @@ func (g *c11Gen) transformObj(o amlObj, topOut *[]amlObj, atTop bool) []amlObj {
 	scopeAbs := o.Abs
 	var keep, after []amlObj
 	for _, ch := range o.Body {
-		movable := ch.K != "field" && ch.K != "indexfield" && ch.K != "opregion"
+		movable := ch.K != "field" && ch.K != "indexfield" && ch.K != "opregion" && ch.K != "scope" && ch.Name.Carets == 0 && c11ScopeOfAbs(ch.Abs) == scopeAbs
 		choice := rapid.IntRange(0, 9).Draw(g.t, "lexform")
 		switch {
 		case movable && choice == 0 && c11Hoistable(scopeAbs):
 			// Scope(<path>) { ch } placed after the container (at the top level)
 			g.stats.scopeDirectives++
-			sc := amlObj{K: "scope", Abs: scopeAbs, W: g.width(), Name: g.pathTo(scopeAbs, true)}
+			sc := amlObj{K: "scope", Abs: scopeAbs, W: g.width(), Name: g.pathTo(scopeAbs, atTop)}
 			sc.Body = g.transformObj(ch, topOut, false)
 			after = append(after, sc)
 		case movable && choice == 1 && c11Hoistable(scopeAbs) && scopeAbs != "\\":
 			// ch declared at the top level with a path-prefixed name
 			g.stats.relocated++
-			p := g.pathTo(scopeAbs, true)
+			p := g.pathTo(scopeAbs, atTop)
 			moved := ch
 			moved.Name = amlName{Root: p.Root, Segs: append(append([]string{}, p.Segs...), ch.Name.last())}
 			after = append(after, g.transformObj(moved, topOut, false)...)
@@ -372,6 +374,10 @@ func (g *c11Gen) stmts(m *amlObj, methods, datas []c11Sym, depth int) []amlStmt 
 			s.E = &c
 			s.W = g.width()
 			s.Body = g.stmts(m, methods, datas, depth+1)
+			if len(s.Body) == 0 && !g.allowEmptyIf {
+				vlib.For("C11").Exclude("F-C11c If with an empty body given one statement")
+				s.Body = []amlStmt{{K: "inc", T: g.target(false)}}
+			}
 			if rapid.Bool().Draw(g.t, "else") {
 				s.Has = true
 				s.W2 = g.width()
